@@ -181,6 +181,10 @@ func ObserveStr(label, s string) { Trace = append(Trace, label+" "+strconv.Quote
 
 func Reach(label string) {}
 
+// RandDrawsEqual: under the symbolic executor, "the first two crypto/rand.Read
+// draws returned identical bytes"; natively the draws are real randomness.
+func RandDrawsEqual() bool { return false }
+
 // Concrete makes v concrete by case splitting over lo..hi.
 func Concrete(v, lo, hi int) int {
 	Assume(lo <= v && v <= hi)
